@@ -127,7 +127,31 @@ def run(ctx):
             tpl.append({"a": {"kw": {"languages": [A]}, "s": sa}, "b": {"kw": {via: [B]}, "s": rng.choice(["01/02/2020", "03-04-2011", "10.11.12", "1 %s 2020" % W["langs"][B]["months"][0]])},
                         "settings": {"RELATIVE_BASE": BASE}, "selected": [B]})
         tpl_res = core.run_cases(ctx, "harness.lib", "call_c13_tpl", tpl, chunk=10)
+    # ---- the locale's conventions reach EVERY parser that reads a date order (the opt-in no-spaces parser included):
+    # the result under a selected locale equals the result under the same locale with its order stated explicitly
+    rel, rel_res = [], []
+    if not ctx.replay:
+        ALLP = ["timestamp", "relative-time", "custom-formats", "absolute-time", "no-spaces-time"]
+        targets = []
+        for L in order:
+            targets.append(({"languages": [L]}, LX[L]["date_order"] or "MDY"))
+            for loc, o in sorted(LX[L]["locales"].items()):
+                targets.append(({"locales": [loc]}, o or "MDY"))
+                if rng.random() < 0.3 and "-" in loc and len(loc.split("-")) == 2:
+                    targets.append(({"languages": [L], "region": loc.split("-")[1]}, o or "MDY"))
+        if ctx.quick():
+            targets = rng.sample(targets, 90) + [({"locales": ["en-GB"]}, "DMY"), ({"languages": ["ja"]}, "YMD"), ({"locales": ["fr-CA"]}, "YMD")]
+        for kw, o in targets:
+            for s_ in rng.sample(["010220", "110320", "01022020", "20200102", "130220", "01/02/20", "11-03-20", "3.4.05", "010203", "311299"], 3):
+                for extra in ({"DATE_ORDER": o}, None):
+                    st = {"PARSERS": ALLP, "RELATIVE_BASE": BASE}
+                    st.update(extra or {})
+                    rel.append({"s": s_, "kw": kw, "settings": st, "api": "ddp", "probe": False, "order": o})
+        rel_res = core.run_cases(ctx, "harness.lib", "call_parse", rel)
     records = []
+    for j in range(0, len(rel), 2):
+        records.append({"kind": "convrel", "tid": 3 * 10 ** 6 + j, "stated": [rel_res[j]["out"], rel_res[j]["period"], rel_res[j]["exc"]],
+                        "out": [rel_res[j + 1]["out"], rel_res[j + 1]["period"], rel_res[j + 1]["exc"]]})
     for j, (c, r) in enumerate(zip(tpl, tpl_res)):
         records.append({"kind": "tpl", "tid": 2 * 10 ** 6 + j, "selected": c["selected"], "out": r["out"], "single": r["single"], "exc": r["exc"]})
     for j, (c, r) in enumerate(zip(conv, conv_res)):
@@ -138,6 +162,11 @@ def run(ctx):
     tuples, gen = core.validate_traces(ctx, "T_C13", "SPECIFICATION TSpec\nPOSTCONDITION Consumed\nCHECK_DEADLOCK FALSE\n", records)
     for t in tuples["REJECT"]:
         _, tid, kind, verdict, exp = t[:5]
+        if tid >= 3 * 10 ** 6:
+            c, r = rel[tid - 3 * 10 ** 6 + 1], rel_res[tid - 3 * 10 ** 6 + 1]
+            ctx.violation({"call": "DateDataParser(%s, settings=%r).get_date_data(%r)" % (", ".join("%s=%r" % kv for kv in c["kw"].items()), c["settings"], c["s"]),
+                           "date_order_of_that_locale": c["order"]}, verdict, expected=exp, observed={"out": r["out"], "period": r["period"], "exc": r["exc"]})
+            continue
         if tid >= 2 * 10 ** 6:
             c, r = tpl[tid - 2 * 10 ** 6], tpl_res[tid - 2 * 10 ** 6]
             ctx.violation({"history": "pa = DateDataParser(languages=%r, try_previous_locales=True); pa.get_date_data(..) x%d; DateDataParser(%s, try_previous_locales=True).get_date_data(%r)" % (
@@ -164,7 +193,7 @@ def run(ctx):
     from .. import loadercheck
     ldr = loadercheck.run(ctx, LX, W) if not ctx.replay else {}
     cov = {
-        "tokenize": tok, "regional_convention_cases_in_fresh_processes": len(conv), "try_previous_locales_pairs": len(tpl), "loader": ldr,
+        "tokenize": tok, "regional_convention_cases_in_fresh_processes": len(conv), "locale_order_reaches_every_parser_pairs": len(rel) // 2, "try_previous_locales_pairs": len(tpl), "loader": ldr,
         "states": mc.distinct, "transitions": mc.generated, "traces_validated_against_impl": len(cases),
         "evaluations": sum(len(c["order"]) + 6 for c in cases),
         "distinct_nontrivial": len({(c["s"], tuple(c["langs"]), c["given"]) for c, r in zip(cases, results) if r["multi"]["res"] or r["auto"]["res"]}),
